@@ -111,30 +111,34 @@ Definition bump (c : cfg) (k o w : nat) : cfg :=
 Definition track (c : cfg) (k w : nat) : cfg :=
   match decoys c k with Some o => bump c k o w | None => fresh_track c k w end.
 
-(* RegisteredDecoys.register: (re-)track if unknown, then set Valid and announce unless already valid *)
-Definition register (c : cfg) (k w : nat) : cfg :=
+(* RegisteredDecoys.register: (re-)track if unknown, then set Valid and announce unless already
+   valid.  Only the caller's own object is validated ([pinned = true]: the code before that fix
+   validated whatever object was tracked under the key). *)
+Definition register (pinned : bool) (c : cfg) (k w : nat) : cfg :=
   let c1 := match decoys c k with Some _ => c | None => fresh_track c k w end in
   match decoys c1 k with
   | Some o =>
-      if o_valid (objs c1 o) then c1
+      if negb pinned && negb (Nat.eqb o w) then c1
+      else if o_valid (objs c1 o) then c1
       else add_event (EAnn k o (o_resolved (objs c1 o)))
              (set_objs c1 (upd (objs c1) o (mkObj true (o_regcount (objs c1 o)) (o_resolved (objs c1 o)))))
   | None => c1
   end.
 
 (* the tail of ingestRegistration after the liveness probe *)
-Definition validate (share : bool) (c : cfg) (w : nat) (m : msg) : cfg :=
+Definition validate (pinned share : bool) (c : cfg) (w : nat) (m : msg) : cfg :=
   let c1 := if m_detector m && share then add_event (EShare w) c else c in
   if m_detector m && at_pol (m_ph_blocked m) (pol c) then inc_blocked c1
-  else inc_adds (register c1 (m_key m) w).
+  else inc_adds (register pinned c1 (m_key m) w).
 
 Definition resolve (c : cfg) (w : nat) : cfg :=
   add_event (ECov w)
     (set_objs c (upd (objs c) w (mkObj (o_valid (objs c w)) (o_regcount (objs c w)) true))).
 
 (* [split = true] is the code as pinned (exists-check and track are two critical
-   sections with a schedule point in between); [split = false] is
-   TrackRegIfNotExists. *)
+   sections with a schedule point in between, register validates any tracked
+   object); [split = false] is the code with TrackRegIfNotExists and register
+   validating only the caller's object. *)
 Definition wstep (split share : bool) (c : cfg) (w : nat) (m : msg) (pc : wpc) : cfg * wpc :=
   match pc with
   | W0 =>
@@ -146,8 +150,8 @@ Definition wstep (split share : bool) (c : cfg) (w : nat) (m : msg) (pc : wpc) :
            end
   | W1 => (track c (m_key m) w, W2)
   | W2 => if at_pol (m_cov_ok m) (pol c) then (resolve c w, W3) else (inc_err c, WEnd)
-  | W3 => if m_needs_probe m then (c, W4) else (validate share c w m, WEnd)
-  | W4 => if m_live m then (c, WEnd) else (validate share c w m, WEnd)
+  | W3 => if m_needs_probe m then (c, W4) else (validate split share c w m, WEnd)
+  | W4 => if m_live m then (c, WEnd) else (validate split share c w m, WEnd)
   | WEnd => (c, WEnd)
   end.
 
@@ -498,3 +502,13 @@ Definition spec_view (s : sstate) (k : nat) : option (bool * bool * nat * nat) :
   | Some (om, cnt) => Some (admitted om, cov0 om, m_covert om, cnt)
   | None => None
   end.
+
+(* a worker that has not started (or has finished): every worker starts like that *)
+Definition worker_fresh (th : thread) : bool :=
+  match th with TWorker _ W0 | TWorker _ WEnd => true | TWorker _ _ => false | _ => true end.
+
+(* whatever a handler is handed, and whatever is announced, had its covert address checked against
+   the policy and resolved by its own ingest beforehand *)
+Definition covert_checked_before (tr : list event) : Prop :=
+  (forall k o r tr1 tr2, tr = tr1 ++ ESeen k o r :: tr2 -> r = true /\ In (ECov o) tr2) /\
+  (forall k o r tr1 tr2, tr = tr1 ++ EAnn k o r :: tr2 -> r = true /\ In (ECov o) tr2).
